@@ -586,11 +586,52 @@ func ruleTableInsert(p *Prog, r *Out) {
 			}
 		}
 		key := "insert takes a slot"
-		if !uncond {
+		if uncond {
+			r.ok(key, p.pos(as.Pos()), "openStreams++ follows the insert unconditionally")
+			return true
+		}
+		// counted for one frame type only: every other type that can get here must end the
+		// connection on an idle stream, so that its uncounted entry does not outlive the frame
+		counted := int64(-1)
+		if b, ok := ast.Unparen(parseCondOf(list, i, p)).(*ast.BinaryExpr); ok && b.Op == token.EQL && squash(p.text(b.X)) == "fr.Type()" {
+			if v, ok := p.intConst(b.Y); ok {
+				counted = v
+			}
+		}
+		reach := map[int64]bool{0: true, 1: true, 2: true, 3: true, 5: true, 8: true, 9: true} // stream-level frame types
+		for _, s := range list[:i] {
+			ifs, ok := s.(*ast.IfStmt)
+			if !ok || len(ifs.Body.List) == 0 {
+				continue
+			}
+			b, ok := ast.Unparen(ifs.Cond).(*ast.BinaryExpr)
+			if !ok || b.Op != token.EQL || squash(p.text(b.X)) != "fr.Type()" {
+				continue
+			}
+			v, ok := p.intConst(b.Y)
+			if !ok {
+				continue
+			}
+			if br, ok := ifs.Body.List[len(ifs.Body.List)-1].(*ast.BranchStmt); ok && (br.Tok == token.CONTINUE || br.Tok == token.BREAK) {
+				delete(reach, v)
+			}
+		}
+		var lingering []string
+		for k := range reach {
+			if k == counted {
+				continue
+			}
+			cls, ok := p.idleOutcomeClasses(k)
+			if !ok || len(cls) != 1 || !cls["GoAway"] {
+				lingering = append(lingering, frameTypeNames[k])
+			}
+		}
+		sortStrings(lingering)
+		if len(lingering) > 0 {
 			key += " (counted only under `" + cond + "`)"
 		}
-		r.check(uncond, key, p.pos(as.Pos()), "openStreams++ follows the insert unconditionally",
-			fmt.Sprintf("the stream table insert `%s` is followed by a slot increment only under `%s`: a PRIORITY or WINDOW_UPDATE frame on a fresh stream id allocates a Stream and a RequestCtx that are not counted against MaxConcurrentStreams and stay for the life of the connection (and the id can later be dispatched uncounted)", p.text(as), cond))
+		r.check(counted >= 0 && len(lingering) == 0, key, p.pos(as.Pos()), "the insert is counted, or the frame that caused it ends the connection",
+			fmt.Sprintf("the stream table insert `%s` is followed by a slot increment only under `%s`, and a %s frame on a fresh stream id reaches it without ending the connection: it allocates a Stream and a RequestCtx that are not counted against MaxConcurrentStreams and stay for the life of the connection (and the id can later be dispatched uncounted)", p.text(as), cond, strings.Join(lingering, "/")))
 		return true
 	})
 	if !found {
@@ -749,12 +790,15 @@ func ruleGoAwayBookkeeping(p *Prog, r *Out) {
 				vals[p.vdescN(cs.Common.Args[1], 3)]++
 			}
 		}
-		var vs []string
+		var vs, ks []string
 		for k, n := range vals {
 			vs = append(vs, fmt.Sprintf("%s x%d", k, n))
+			ks = append(ks, k)
 		}
 		sortStrings(vs)
-		r.bad("last-stream-id origin {"+strings.Join(vs, "; ")+"}", p.pos(setArg.Pos()), fmt.Sprintf("the GOAWAY last-stream-id is `%s`, a parameter whose call-site values are {%s}; none derives from serverConn.lastID, the highest stream id accepted, so GOAWAY(last=0) is sent after streams were dispatched and a client may replay requests the server already processed (RFC 7540 s6.8)", p.text(setArg), strings.Join(vs, ", ")))
+		sortStrings(ks)
+		// the key names the set of origins, not how many call sites share each
+		r.bad("last-stream-id origin {"+strings.Join(ks, "; ")+"}", p.pos(setArg.Pos()), fmt.Sprintf("the GOAWAY last-stream-id is `%s`, a parameter whose call-site values are {%s}; none derives from serverConn.lastID, the highest stream id accepted, so GOAWAY(last=0) is sent after streams were dispatched and a client may replay requests the server already processed (RFC 7540 s6.8)", p.text(setArg), strings.Join(vs, ", ")))
 	} else {
 		r.ok("last-stream-id origin", p.pos(setArg.Pos()), "derives from serverConn.lastID")
 	}
@@ -1108,4 +1152,23 @@ func loopBodyOf(p *Prog, fd *ast.FuncDecl) []ast.Stmt {
 		}
 	}
 	return nil
+}
+
+// parseCondOf returns the condition of the `if` after list[i] whose body increments openStreams.
+func parseCondOf(list []ast.Stmt, i int, p *Prog) ast.Expr {
+	for _, s := range list[i+1:] {
+		if ifs, ok := s.(*ast.IfStmt); ok {
+			hit := false
+			ast.Inspect(ifs.Body, func(m ast.Node) bool {
+				if inc, ok := m.(*ast.IncDecStmt); ok && p.text(inc.X) == "openStreams" && inc.Tok == token.INC {
+					hit = true
+				}
+				return true
+			})
+			if hit {
+				return ifs.Cond
+			}
+		}
+	}
+	return &ast.Ident{Name: "_"}
 }
